@@ -7,6 +7,7 @@ import CimbaModel.Sim.S1Demo
 import CimbaModel.Sim.S1WaitRun
 import CimbaModel.Sim.S1SilentRun
 import CimbaModel.Sim.S1PoolRun
+import CimbaModel.Sim.S1SilentIRun
 import CimbaModel.HashHeap.Orders
 
 namespace CimbaModel.Props.C09
@@ -497,5 +498,37 @@ theorem pool_holders_are_running {w : World} (h : PInv w) (hd : DeadRec w) (pl :
   apply Classical.byContradiction
   intro hnr
   exact h.not_running hd p hnr pl (by rw [hk_eq w pl x hx]; exact hk)
+
+/-! ### all invariants together; interrupts -/
+
+/-- **`FullInv`** = `HolderInv ∧ WaitersInv ∧ DeadRec ∧ Silent ∧ PoolHolderInv ∧ SilentI` is preserved by every
+    dispatched event, for every program and schedule -/
+theorem fullInv_dispatch {w w' : World} (h : FullInv w) (hd : dispatch w = some w') : FullInv w' :=
+  fullinv_dispatch h hd
+
+theorem fullInv_runAll {w : World} (h : FullInv w) (fuel : Nat) : FullInv (runAll fuel w) := fullinv_runAll fuel h
+
+theorem fullInv_execCmd {w : World} (h : FullInv w) (p : Pid) (hp : p < w.procs.size)
+    (hrun : (w.proc p).status = .running) (hpa : w.pa p = []) (c : Cmd) : FullInv (execCmd w p c).1 :=
+  fullinv_execCmd h p hp hrun hpa c
+
+theorem fullInv_finishProc {w : World} (h : FullInv w) (p : Pid) (val : Int) (stopped : Bool) :
+    FullInv (finishProc w p val stopped) := fullinv_finishProc h p val stopped
+
+/-- `SilentI`: every pending interrupt wake-up (from the `interrupt` command or from the mugging loop of a preempting
+    pool acquisition) is addressed to a running process -/
+theorem silentI_iff (w : World) :
+    SilentI w ↔ ∀ e ∈ w.ev.pending, e.item.a = aIntr → 1 ≤ e.item.b ∧ (w.proc (e.item.b - 1)).status = .running :=
+  Iff.rfl
+
+/-- **`end_silences_partial`, five kinds**: under the invariants, for a process that is not running no timer,
+    process-end wake-up, preemption wake-up, resume event or interrupt is pending.  (Still open: event wake-ups,
+    grants and condition wake-ups — see `end_silences_partial`.) -/
+theorem end_silences_partial_five {w : World} (h : FullInv w) (p : Pid) (hp : (w.proc p).status ≠ .running) :
+    ∀ e ∈ w.ev.pending, e.item.b = p + 1 →
+      e.item.a ≠ aTime ∧ e.item.a ≠ aProc ∧ e.item.a ≠ aPreempt ∧ e.item.a ≠ aResume ∧ e.item.a ≠ aIntr := by
+  intro e he hb
+  obtain ⟨a, b, c, d⟩ := end_silences_partial h.all p hp e he hb
+  exact ⟨a, b, c, d, h.intr.none_for p hp e he hb⟩
 
 end CimbaModel.Props.C09
